@@ -4,6 +4,7 @@ import (
 	"fmt"
 	"runtime"
 	"runtime/debug"
+	"strings"
 	"sync"
 	"time"
 
@@ -109,6 +110,7 @@ type WorldOpts struct {
 	ReserveNow    bool // reservation delay 0 (otherwise reservations never happen)
 	ShortResvWait bool // reservation wait timeout tiny
 	NoPredicates  bool // do not register the predicate plugin
+	Hostile       bool // requests no protocol following shim would send are part of the history (C13)
 }
 
 // Violation is one oracle failure.
@@ -132,7 +134,8 @@ type World struct {
 	Lines       []string // human readable trace
 	Dead        bool     // a panic or hang happened: the world cannot continue
 	Vios        []Violation
-	Checks      map[string]bool // enabled oracle sets by property id
+	Checks      map[string]bool   // enabled oracle sets by property id
+	Alias       map[string]string // violations of the key property are reported under the value property
 	StepNo      int
 	inDrain     bool
 	// statistics of the history, used for non-triviality rules and labels
@@ -170,6 +173,14 @@ func newWorldYAML(y string, opts WorldOpts, checks ...string) (*World, string) {
 	plugins.UnregisterSchedulerPlugins()
 	w := &World{rec: &recorder{}, Pred: &predPlugin{deny: map[string]bool{}, calls: map[string]bool{}}, Opts: opts, Checks: map[string]bool{}, Tags: map[string]int{}}
 	for _, c := range checks {
+		if from, to, ok := strings.Cut(c, "=>"); ok {
+			w.Checks[from] = true
+			if w.Alias == nil {
+				w.Alias = map[string]string{}
+			}
+			w.Alias[from] = to
+			continue
+		}
 		w.Checks[c] = true
 	}
 	if !opts.NoPredicates {
@@ -228,7 +239,12 @@ func (w *World) vio(prop, format string, args ...interface{}) {
 	if !w.Checks[prop] && !w.Checks["*"] {
 		return
 	}
-	w.Vios = append(w.Vios, Violation{Prop: prop, Msg: fmt.Sprintf("step %d: ", w.StepNo) + fmt.Sprintf(format, args...)})
+	msg := fmt.Sprintf("step %d: ", w.StepNo) + fmt.Sprintf(format, args...)
+	if to := w.Alias[prop]; to != "" {
+		// the oracle of another property is used as a state-corruption detector for this one
+		prop, msg = to, msg+" ["+prop+" invariant]"
+	}
+	w.Vios = append(w.Vios, Violation{Prop: prop, Msg: msg})
 }
 
 // Tag counts something that happened in this history.
